@@ -20,6 +20,8 @@ pub enum Op {
     DropC { c: usize },
     Satisfy { c: usize },
     Epoch { seed: u64 },
+    /// how argument maps are constructed from here on (see ops::set_arg_route)
+    ArgRoute { route: u8 },
 }
 
 impl Op {
@@ -35,6 +37,7 @@ impl Op {
             Op::DropC { c } => json!({"op": "DropC", "c": c}),
             Op::Satisfy { c } => json!({"op": "Satisfy", "c": c}),
             Op::Epoch { seed } => json!({"op": "Epoch", "seed": seed.to_string()}),
+            Op::ArgRoute { route } => json!({"op": "ArgRoute", "route": route}),
         }
     }
     pub fn from_json(v: &serde_json::Value) -> Option<Op> {
@@ -50,6 +53,7 @@ impl Op {
             "DropC" => Op::DropC { c: u("c")? },
             "Satisfy" => Op::Satisfy { c: u("c")? },
             "Epoch" => Op::Epoch { seed: v.get("seed")?.as_str()?.parse().ok()? },
+            "ArgRoute" => Op::ArgRoute { route: u("route")? as u8 },
             _ => return None,
         })
     }
@@ -64,13 +68,17 @@ impl Op {
             Op::DropC { .. } => "DropC",
             Op::Satisfy { .. } => "Satisfy",
             Op::Epoch { .. } => "Epoch",
+            Op::ArgRoute { .. } => "ArgRoute",
         }
     }
 }
 
 /// Draw the operation list of one run.  `cases` = indices (into the run's own case list) to use.
 pub fn draw_ops(rng: &mut Prng, cases: &[&Case]) -> Vec<Op> {
-    let n = rng.range(4, 24);
+    // one run in twelve is a long history on few threads (residue that accumulates per thread or
+    // per process needs many operations, in particular many failing ones, to show)
+    let long = rng.below(12) == 0;
+    let n = if long { rng.range(60, 220) } else { rng.range(4, 24) };
     let mut ops = Vec::new();
     // live slots, tracked symbolically
     let mut templates: Vec<(usize, bool)> = Vec::new(); // (case, live)
@@ -118,7 +126,21 @@ pub fn draw_ops(rng: &mut Prng, cases: &[&Case]) -> Vec<Op> {
             17 if !live_c.is_empty() => {
                 ops.push(Op::Satisfy { c: *rng.pick(&live_c) });
             }
-            18 | 19 => ops.push(Op::Epoch { seed: rng.next() | 1 }),
+            18 if long && rng.below(8) != 0 => {
+                // long histories stay on their thread most of the time
+                let case = rng.below(cases.len());
+                let args = rng.below(cases[case].args.len());
+                ops.push(Op::Compile { case, args, debug: rng.coin() });
+                compiled.push(true);
+            }
+            18 => ops.push(Op::Epoch { seed: rng.next() | 1 }),
+            19 => {
+                if rng.coin() {
+                    ops.push(Op::Epoch { seed: rng.next() | 1 })
+                } else {
+                    ops.push(Op::ArgRoute { route: rng.below(4) as u8 })
+                }
+            }
             _ => {}
         }
     }
@@ -177,6 +199,7 @@ pub fn exec(
     let mut satisfy_seen: std::collections::BTreeMap<(usize, usize, bool), String> = Default::default();
     let mut log = Vec::new();
     let mut epoch_no = 0u64;
+    let mut arg_route: u8 = 0;
     for (seed, seg) in segments {
         if seg.is_empty() {
             continue;
@@ -185,8 +208,8 @@ pub fn exec(
         stats.epochs += 1;
         let en = epoch_no;
         let res: Option<Violation> = {
-            let (templates, compiled, satisfy_seen, log, stats) =
-                (&mut templates, &mut compiled, &mut satisfy_seen, &mut log, &mut *stats);
+            let (templates, compiled, satisfy_seen, log, stats, arg_route) =
+                (&mut templates, &mut compiled, &mut satisfy_seen, &mut log, &mut *stats, &mut arg_route);
             // `reference` is only used on this thread while the parent is blocked
             struct SendPtr<T>(T);
             unsafe impl<T> Send for SendPtr<T> {}
@@ -199,6 +222,7 @@ pub fn exec(
                 let cases = casesp.0;
                 let fp = seam::order_fingerprint();
                 stats.distinct_orders.insert(fp);
+                ops::set_arg_route(*arg_route);
                 log.push(format!("A\tepoch {en}\tseed={seed:x}\torder_fp={fp:016x}"));
                 for (step, op) in seg {
                     let mut judged = |what: &str, want: &Outcome, got: &Outcome, log: &mut Vec<String>| -> Option<Violation> {
@@ -392,6 +416,11 @@ pub fn exec(
                             }
                         }
                         Op::Epoch { .. } => {}
+                        Op::ArgRoute { route } => {
+                            *arg_route = *route;
+                            ops::set_arg_route(*route);
+                            log.push(format!("A\t{step}\tArgRoute({route})"));
+                        }
                     }
                 }
                 None
@@ -417,7 +446,7 @@ pub fn run(o: &Opts) -> i32 {
         }
     };
     let sz = sizes(&o.tier);
-    let cases = build(&CorpusSpec { seed: o.seed, generated: sz.generated, mutated: sz.mutated, layout: sz.layout }, &o.repo, &o.verif);
+    let cases = build(&CorpusSpec { seed: o.seed, generated: sz.generated, mutated: sz.mutated, layout: sz.layout, literal: sz.literal }, &o.repo, &o.verif);
     let runs: u64 = if o.tier == "thorough" { 12_000 } else { 480 };
     let mut rep = Report::new(&o.out, "A", o.shard);
     let mut stats = ExecStats::default();
@@ -429,7 +458,17 @@ pub fn run(o: &Opts) -> i32 {
         let mut rng = Prng::new(s);
         // 1..4 cases per run, biased to repeat few programs many times
         let k = rng.range(1, 4);
-        let idx: Vec<usize> = (0..k).map(|_| rng.below(cases.len())).collect();
+        // every other run draws its programs from one family (an original and texts derived from
+        // it: same spans and names, other constants / layout), so that anything keyed by position
+        // or by name across compilations gets near-identical programs on one thread
+        let idx: Vec<usize> = if rng.coin() {
+            let derived: Vec<usize> = (0..cases.len()).filter(|i| cases[*i].family != *i).collect();
+            let fam = if derived.is_empty() { cases[rng.below(cases.len())].family } else { cases[*rng.pick(&derived)].family };
+            let members: Vec<usize> = (0..cases.len()).filter(|i| cases[*i].family == fam).collect();
+            (0..k.max(2)).map(|_| *rng.pick(&members)).collect()
+        } else {
+            (0..k).map(|_| rng.below(cases.len())).collect()
+        };
         let sel: Vec<&Case> = idx.iter().map(|i| &cases[*i]).collect();
         let ops_list = draw_ops(&mut rng, &sel);
         let reference = |c: usize, a: usize, d: bool| golden.get(&(idx[c], a, d)).cloned();
